@@ -13,7 +13,7 @@ open UgoVerif UgoVerif.Go UgoVerif.VM
 /-- after one instruction: `PostC` (both continue related / the error leaves the function / same Go error), or
     the invoked function itself returned (`RetQ`: the child's loop ends without error, the parent is back in
     the caller's frame with the same value in the call's slot) -/
-def PostG (bp k : Nat) (r r' : Ctl) (s t : State) : Prop := PostC bp k r r' s t ∨ RetQ bp k r r' s t
+def PostG (T0 : State) (bp k : Nat) (r r' : Ctl) (s t : State) : Prop := PostC T0 bp k r r' s t ∨ RetQ T0 bp k r r' s t
 
 /-- an opcode number outside opcodes.go: `unknown opcode` on both sides -/
 theorem dispatch_unknown (F : FloatOps) (op : Nat) (h : 44 ≤ op) : dispatch F op = execUnknown op := by
@@ -23,9 +23,9 @@ theorem dispatch_unknown (F : FloatOps) (op : Nat) (h : 44 ≤ op) : dispatch F 
   simp only [hne 0 (by decide), hne 1 (by decide), hne 2 (by decide), hne 3 (by decide), hne 4 (by decide), hne 5 (by decide), hne 6 (by decide), hne 7 (by decide), hne 8 (by decide), hne 9 (by decide), hne 10 (by decide), hne 11 (by decide), hne 12 (by decide), hne 13 (by decide), hne 14 (by decide), hne 15 (by decide), hne 16 (by decide), hne 17 (by decide), hne 18 (by decide), hne 19 (by decide), hne 20 (by decide), hne 21 (by decide), hne 22 (by decide), hne 23 (by decide), hne 24 (by decide), hne 25 (by decide), hne 26 (by decide), hne 27 (by decide), hne 28 (by decide), hne 29 (by decide), hne 30 (by decide), hne 31 (by decide), hne 32 (by decide), hne 33 (by decide), hne 34 (by decide), hne 35 (by decide), hne 36 (by decide), hne 37 (by decide), hne 38 (by decide), hne 39 (by decide), hne 40 (by decide), hne 41 (by decide), hne 42 (by decide), hne 43 (by decide), Bool.false_eq_true, if_false, Bool.or_self]
 
 section
-variable {bp k d H N : Nat} {a : Int}
+variable {T0 : State} {bp k d H N : Nat} {a : Int}
 
-theorem sh_execUnknown (op : Nat) : RelS (Sh bp k d H N a) (PostG bp k) (execUnknown op) (execUnknown op) := by
+theorem sh_execUnknown (op : Nat) : RelS (Sh T0 bp k d H N a) (PostG T0 bp k) (execUnknown op) (execUnknown op) := by
   intro s t h r s' r' t' h1 h2
   simp only [execUnknown, exec_bind, exec_modS, exec_pure, Prod.mk.injEq, Except.ok.injEq] at h1 h2
   obtain ⟨rfl, rfl⟩ := h1
@@ -38,11 +38,11 @@ def callOps : List Nat := [OpCall, OpCallName]
 /-- **every opcode.**  (`hk`, `hbp`: the parent has a caller frame and the callee value below the frame — as
     after `xOpCallCompiled`.) -/
 theorem sh_dispatch_all (F : FloatOps) (op : Nat) (ha : a ≤ N) (hH : H ≤ N) (hk : 1 ≤ k) (hbp : 1 ≤ bp) :
-    RelS (fun s t => Sh bp k d H N a s t ∧ (op ∈ localReadOps → OpLt s) ∧ (op = OpMap → OpEven s) ∧
-        (op ∈ callOps → NoSpread s ∧ k + d + 2 < frameSize)) (PostG bp k) (dispatch F op) (dispatch F op) := by
-  have weak : ∀ {m : M Ctl}, RelS (Sh bp k d H N a) (PostC bp k) m m →
-      RelS (fun s t => Sh bp k d H N a s t ∧ (op ∈ localReadOps → OpLt s) ∧ (op = OpMap → OpEven s) ∧
-        (op ∈ callOps → NoSpread s ∧ k + d + 2 < frameSize)) (PostG bp k) m m :=
+    RelS (fun s t => Sh T0 bp k d H N a s t ∧ (op ∈ localReadOps → OpLt s) ∧ (op = OpMap → OpEven s) ∧
+        (op ∈ callOps → NoSpread s ∧ k + d + 2 < frameSize)) (PostG T0 bp k) (dispatch F op) (dispatch F op) := by
+  have weak : ∀ {m : M Ctl}, RelS (Sh T0 bp k d H N a) (PostC T0 bp k) m m →
+      RelS (fun s t => Sh T0 bp k d H N a s t ∧ (op ∈ localReadOps → OpLt s) ∧ (op = OpMap → OpEven s) ∧
+        (op ∈ callOps → NoSpread s ∧ k + d + 2 < frameSize)) (PostG T0 bp k) m m :=
     fun h => h.conseq (fun _ _ h => h.1) (fun _ _ _ _ h => Or.inl h)
   by_cases hcov : op ∈ coveredOps
   · exact (sh_dispatch F op hcov ha hH).conseq (fun _ _ h => ⟨h.1, h.2.1, h.2.2.1⟩) (fun _ _ _ _ h => Or.inl h)
@@ -113,7 +113,7 @@ def CallRoom (s t : State) : Prop :=
     and of the parent (the function's frame is frame `k`, `bp` slots up), both `d` frames above the function's
     frame, from `ShB`-related states: if both `step`s end normally then `PostG`. -/
 theorem frame_shift (F : FloatOps) (hk : 1 ≤ k) (hbp : 1 ≤ bp) :
-    RelS (fun s t => ShB bp k d s t ∧ StepOk s ∧ CallRoom s t) (PostG bp k) (step F) (step F) := by
+    RelS (fun s t => ShB T0 bp k d s t ∧ StepOk s ∧ CallRoom s t) (PostG T0 bp k) (step F) (step F) := by
   intro s t ⟨⟨H, N, a, h, ha, hH⟩, hok, hcr⟩ r s' r' t' h1 h2
   rw [step_eq, exec_bind] at h1 h2
   rcases e1 : exec fetchOp s with ⟨r1, s1⟩
@@ -171,12 +171,12 @@ def OkRun (F : FloatOps) : Nat → State → State → Prop
       ∀ s' t', exec (step F) s = (.ok .next, s') → exec (step F) t = (.ok .next, t') → OkRun F n s' t'
 
 section
-variable {bp k : Nat}
+variable {T0 : State} {bp k : Nat}
 
 /-- the running phase: while the child's loop goes on, so does the parent's, in related states -/
-theorem steps_shift (F : FloatOps) (hk : 1 ≤ k) (hbp : 1 ≤ bp) (m j : Nat) : ∀ s t, (∃ d, ShB bp k d s t) → OkRun F (m + j) s t →
+theorem steps_shift (F : FloatOps) (hk : 1 ≤ k) (hbp : 1 ≤ bp) (m j : Nat) : ∀ s t, (∃ d, ShB T0 bp k d s t) → OkRun F (m + j) s t →
     ∀ s0, runSteps F m s = some (.next, s0) → ∀ r0 t0, runSteps F m t = some (r0, t0) →
-      r0 = .next ∧ (∃ d, ShB bp k d s0 t0) ∧ OkRun F j s0 t0 := by
+      r0 = .next ∧ (∃ d, ShB T0 bp k d s0 t0) ∧ OkRun F j s0 t0 := by
   induction m with
   | zero =>
     intro s t h hok s0 h1 r0 t0 h2
@@ -240,8 +240,8 @@ theorem runSteps_ret_split (F : FloatOps) (n : Nat) : ∀ s s', runSteps F n s =
 /-- how the invoked function ends (the child's loop returned, `r'` / `t'` are the parent's control result and
     state after the same instruction): it RETURNed (`RetQ`); or an error `e` left its frame (`EscQ`); or both
     loops stopped with the same Go error -/
-def EndQ (bp k : Nat) (r' : Ctl) (s' t' : State) : Prop :=
-  RetQ bp k .ret r' s' t' ∨ (∃ e, s'.err = some (.rt e) ∧ EscQ k e r' s' t') ∨
+def EndQ (T0 : State) (bp k : Nat) (r' : Ctl) (s' t' : State) : Prop :=
+  RetQ T0 bp k .ret r' s' t' ∨ (∃ e, s'.err = some (.rt e) ∧ EscQ T0 bp k e r' s' t') ∨
   (r' = .ret ∧ (∃ m, s'.err = some (.goerr m) ∧ t'.err = some (.goerr m)) ∧
     s'.heap = t'.heap ∧ s'.globals = t'.globals ∧ s'.modules = t'.modules)
 
@@ -249,11 +249,11 @@ def EndQ (bp k : Nat) (r' : Ctl) (s' t' : State) : Prop :=
     number of instructions `n`: if the child's loop ends within `n` instructions — at its instruction number
     `m + 1` — then, provided the parent did not panic / leave the model before, the parent is still running
     after `m` instructions and its instruction number `m + 1` ends as `EndQ` says. -/
-theorem invoke_eq_call_partial (F : FloatOps) (hk : 1 ≤ k) (hbp : 1 ≤ bp) (n : Nat) (s t : State) (h : ∃ d, ShB bp k d s t)
+theorem invoke_eq_call_partial (F : FloatOps) (hk : 1 ≤ k) (hbp : 1 ≤ bp) (n : Nat) (s t : State) (h : ∃ d, ShB T0 bp k d s t)
     (hok : OkRun F n s t) (s' : State) (hs : runSteps F n s = some (.ret, s')) :
     ∃ m s0, m < n ∧ runSteps F m s = some (.next, s0) ∧ exec (step F) s0 = (.ok .ret, s') ∧
       ∀ r0 t0, runSteps F m t = some (r0, t0) → r0 = .next ∧
-        ∀ r' t', exec (step F) t0 = (.ok r', t') → EndQ bp k r' s' t' := by
+        ∀ r' t', exec (step F) t0 = (.ok r', t') → EndQ T0 bp k r' s' t' := by
   obtain ⟨m, s0, hm, h1, h2⟩ := runSteps_ret_split F n s s' hs
   refine ⟨m, s0, hm, h1, h2, ?_⟩
   intro r0 t0 h3
